@@ -10,12 +10,16 @@ import (
 	"fmt"
 	"math/rand"
 	"strings"
+	"sync"
+	"sync/atomic"
 	"time"
 
 	"github.com/pion/interceptor"
 	"github.com/pion/interceptor/pkg/cc"
 	"github.com/pion/interceptor/pkg/flexfec"
+	"github.com/pion/interceptor/pkg/gcc"
 	"github.com/pion/interceptor/pkg/nack"
+	"github.com/pion/interceptor/pkg/pacing"
 	"github.com/pion/interceptor/pkg/packetdump"
 	"github.com/pion/interceptor/pkg/report"
 	"github.com/pion/interceptor/pkg/rtpfb"
@@ -32,6 +36,8 @@ func init() {
 	runners["kind:rtp-read"] = runRtpRead
 	runners["kind:rtp-write"] = runRtpWrite
 	runners["kind:rtcp-write"] = runRtcpWrite
+	runners["kind:rtcp-write-stats"] = runRtcpWriteStats
+	runners["kind:attr-write"] = runAttrWrite
 }
 
 var oldComp = map[string]bool{}
@@ -77,7 +83,10 @@ type builtChain struct {
 	gate  chan struct{} // holds the logger goroutine's formatter back until the caller has scribbled
 	dump  string        // name of the dumping member
 	warm  []func()
+	sent  int32 // sentinel packets seen by the dumper's filter (logger goroutine, in order)
 }
+
+const sentinelSSRC = 0x5E5E5E5E
 
 func rtcpFormatter(gate chan struct{}) packetdump.RTCPFormatCallback {
 	return func(pkts []rtcp.Packet, _ interceptor.Attributes) string {
@@ -105,7 +114,20 @@ func must(ic interceptor.Interceptor, err error) interceptor.Interceptor {
 	return ic
 }
 
-func mediaOnly(pkt *rtp.Packet) bool { return pkt.SSRC == mediaSSRC }
+// mediaOnly drops FEC packets; it also counts the sentinel packets the harness sends after a
+// call: the logger goroutine takes the dumps in order, so once the sentinel has been seen every
+// dump of the call before it has been written (or the packet never reached the dumper).
+func (bc *builtChain) mediaOnly(pkt *rtp.Packet) bool {
+	if pkt.SSRC == sentinelSSRC {
+		atomic.AddInt32(&bc.sent, 1)
+
+		return false
+	}
+
+	return pkt.SSRC == mediaSSRC
+}
+
+func (bc *builtChain) nSent() int { return int(atomic.LoadInt32(&bc.sent)) }
 
 func buildChain(c *c13Case) *builtChain {
 	bc := &builtChain{ls: &lineSink{}, gate: make(chan struct{}, 4)}
@@ -185,7 +207,7 @@ func buildChain(c *c13Case) *builtChain {
 			ic, bc.dump = must(f.NewInterceptor("")), name
 		case "DumpSender":
 			f, err := packetdump.NewSenderInterceptor(packetdump.RTPWriter(bc.ls), packetdump.RTPFormatter(dumpFormatter(bc.gate)),
-				packetdump.RTPFilter(mediaOnly))
+				packetdump.RTPFilter(bc.mediaOnly))
 			if err != nil {
 				panic(err)
 			}
@@ -220,17 +242,23 @@ func (bc *builtChain) drain() {
 }
 
 // emission waits for the dump line of the call that just returned (the caller has scribbled by now).
-func (bc *builtChain) emission(c *c13Case, i, before int, expect bool, out *runOut, fails *[]cq.ImplFailure) {
+// sentinel != nil: the call may have been refused before it reached the dumper; the sentinel
+// packet sent after it tells when the logger goroutine is past the call.
+func (bc *builtChain) emission(c *c13Case, i, before int, sentinel interceptor.RTPWriter, out *runOut, fails *[]cq.ImplFailure) {
 	select {
 	case bc.gate <- struct{}{}:
 	default:
 	}
-	if expect {
+	if sentinel == nil {
 		if !waitFor(bc.ls.n, before+1, 2*time.Second) {
 			*fails = append(*fails, cq.ImplFailure{Kind: "no-dump", Detail: fmt.Sprintf("chain %v: call %d not dumped", c.Chain, i), Case: c})
 		}
 	} else {
-		time.Sleep(2 * time.Millisecond)
+		seen := bc.nSent()
+		_, _ = sentinel.Write(&rtp.Header{Version: 2, SSRC: sentinelSSRC, SequenceNumber: uint16(i)}, []byte{0}, interceptor.Attributes{}) //nolint:gosec
+		if !waitFor(bc.nSent, seen+1, 2*time.Second) {
+			*fails = append(*fails, cq.ImplFailure{Kind: "no-sentinel", Detail: fmt.Sprintf("chain %v: sentinel after call %d not seen by the dumper", c.Chain, i), Case: c})
+		}
 	}
 	bc.ls.mu.Lock()
 	got := append([]int64{}, bc.ls.lines[before:]...)
@@ -316,7 +344,7 @@ func runRtcpRead(c *c13Case, cl *caller, fails *[]cq.ImplFailure) runOut {
 			cl.held = append(cl.held, held{idx: i, h: &rtp.Header{}, p: b[:len(raw)], wp: raw})
 		}
 		out.ops = append(out.ops, cl.scribbleRead(len(raw))...)
-		bc.emission(c, i, before, rerr == nil, &out, fails)
+		bc.emission(c, i, before, nil, &out, fails)
 	}
 	cl.final(0)
 	_ = bc.chain.Close()
@@ -358,7 +386,7 @@ func runRtpRead(c *c13Case, cl *caller, fails *[]cq.ImplFailure) runOut {
 			cl.held = append(cl.held, held{idx: i, h: &rtp.Header{}, p: b[:len(raw)], wp: raw})
 		}
 		out.ops = append(out.ops, cl.scribbleRead(len(raw))...)
-		bc.emission(c, i, before, rerr == nil, &out, fails)
+		bc.emission(c, i, before, nil, &out, fails)
 	}
 	cl.final(0)
 	_ = bc.chain.Close()
@@ -389,13 +417,12 @@ func runRtpWrite(c *c13Case, cl *caller, fails *[]cq.ImplFailure) runOut {
 		cl.before(h, p)
 		bc.drain()
 		before := bc.ls.n()
-		_, werr := w.Write(h, p, interceptor.Attributes{})
-		if werr != nil {
+		if _, werr := w.Write(h, p, interceptor.Attributes{}); werr != nil {
 			out.refused++
 		}
 		cl.after(i, h, p)
 		out.ops = append(out.ops, cl.scribble()...)
-		bc.emission(c, i, before, werr == nil, &out, fails)
+		bc.emission(c, i, before, w, &out, fails)
 	}
 	cl.final(len(c.Pkts))
 	_ = bc.chain.Close()
@@ -492,7 +519,7 @@ func runRtcpWrite(c *c13Case, cl *caller, fails *[]cq.ImplFailure) runOut {
 		out.ops = append(out.ops, cq.C("XCall", xnames(reversed(c.Chain)), cq.L([]string{cq.T(cq.Z(locPkts), cq.Z(intern(want)), cq.Z(int64(len(want))))})))
 		bc.drain()
 		before := bc.ls.n()
-		_, werr := w.Write(pkts, interceptor.Attributes{})
+		_, _ = w.Write(pkts, interceptor.Attributes{})
 		if marshalAll(pkts) != want {
 			cl.wrote = append(cl.wrote, int64(i))
 		}
@@ -503,7 +530,7 @@ func runRtcpWrite(c *c13Case, cl *caller, fails *[]cq.ImplFailure) runOut {
 		} else {
 			keptA = append(keptA, kept{i, pkts, want})
 		}
-		bc.emission(c, i, before, werr == nil, &out, fails)
+		bc.emission(c, i, before, nil, &out, fails)
 	}
 	for _, k := range keptA {
 		if marshalAll(k.pkts) != k.want {
@@ -511,6 +538,167 @@ func runRtcpWrite(c *c13Case, cl *caller, fails *[]cq.ImplFailure) runOut {
 		}
 	}
 	_ = bc.chain.Close()
+	out.wrote = cl.wrote
+
+	return out
+}
+
+// outgoing RTCP through the statistics interceptor: counted before WriteRTCP returns; the
+// emission is the statistics snapshot after the caller has mutated its packet objects.
+func runRtcpWriteStats(c *c13Case, cl *caller, _ *[]cq.ImplFailure) runOut {
+	var out runOut
+	f, err := stats.NewInterceptor(stats.SetNowFunc(fixedNow))
+	if err != nil {
+		panic(err)
+	}
+	ic := must(f.NewInterceptor(""))
+	rw := ic.BindLocalStream(&interceptor.StreamInfo{SSRC: mediaSSRC, ClockRate: 90000}, &sink{})
+	g, _ := ic.(stats.Getter)
+	for k := 0; k < 5000 && g.Get(mediaSSRC).OutboundRTPStreamStats.PacketsSent == 0; k++ {
+		_, _ = rw.Write(&rtp.Header{Version: 2, SSRC: mediaSSRC, SequenceNumber: 1}, []byte{1}, interceptor.Attributes{})
+		time.Sleep(50 * time.Microsecond)
+	}
+	w := ic.BindRTCPWriter(interceptor.RTCPWriterFunc(func(_ []rtcp.Packet, _ interceptor.Attributes) (int, error) { return 0, nil }))
+	objs := newRtcpObjs()
+	sc := 0
+	for i := range c.Pkts {
+		if !cl.reuse {
+			objs = newRtcpObjs()
+		}
+		s := c.Pkts[i]
+		s.PayLen = 3*s.PayLen + 2 // the NACK + receiver report form: the NACK is counted
+		pkts := objs.fill(s)
+		want := marshalAll(pkts)
+		out.ops = append(out.ops, cq.C("XCall", xnames(c.Chain), cq.L([]string{cq.T(cq.Z(locPkts), cq.Z(intern(want)), cq.Z(int64(len(want))))})))
+		_, _ = w.Write(pkts, interceptor.Attributes{})
+		if marshalAll(pkts) != want {
+			cl.wrote = append(cl.wrote, int64(i))
+		}
+		if cl.reuse {
+			sc++
+			objs.scribble(sc)
+			out.ops = append(out.ops, cq.C("XScribble", cq.Z(locPkts), cq.Z(intern(marshalAll(pkts)))))
+		}
+		out.outs = append(out.outs, []int64{intern(fmt.Sprintf("S|%+v", *g.Get(mediaSSRC)))})
+		out.ops = append(out.ops, cq.C("XEmitAll", xname(c.Chain[0])))
+	}
+	_ = ic.Close()
+	out.wrote = cl.wrote
+
+	return out
+}
+
+// ---- the caller's attributes MAP: one map reused for every Write and changed after it returned ----
+
+type attrKey struct{}
+
+// attrSink is the downstream writer: it reads the attributes it is handed only after the
+// caller has changed its map (gate), so that no map access is concurrent.
+type attrSink struct {
+	mu   sync.Mutex
+	gate chan struct{}
+	got  []int64
+}
+
+func (s *attrSink) Write(_ *rtp.Header, _ []byte, a interceptor.Attributes) (int, error) {
+	if !noGate {
+		select {
+		case <-s.gate:
+		case <-time.After(500 * time.Millisecond):
+		}
+	}
+	s.mu.Lock()
+	s.got = append(s.got, intern(fmt.Sprintf("A|%v", a.Get(attrKey{}))))
+	s.mu.Unlock()
+
+	return 0, nil
+}
+
+func (s *attrSink) n() int {
+	s.mu.Lock()
+	defer s.mu.Unlock()
+
+	return len(s.got)
+}
+
+const locAttr = 5
+
+func runAttrWrite(c *c13Case, cl *caller, fails *[]cq.ImplFailure) runOut {
+	var out runOut
+	sk := &attrSink{gate: make(chan struct{}, 4)}
+	var w interceptor.RTPWriter
+	var closer func() error
+	switch c.Chain[0] {
+	case "AttrLeakyBucket":
+		p := gcc.NewLeakyBucketPacer(200_000_000)
+		p.AddStream(mediaSSRC, sk)
+		w, closer = p, p.Close
+	case "AttrPacing":
+		f := pacing.NewInterceptor(pacing.InitialRate(400_000_000), pacing.Interval(time.Millisecond))
+		ic := must(f.NewInterceptor("c13"))
+		w, closer = ic.BindLocalStream(&interceptor.StreamInfo{SSRC: mediaSSRC}, sk), ic.Close
+	case "AttrDumpSender":
+		// the formatter (logger goroutine) is the consumer of the map
+		format := func(_ *rtp.Packet, a interceptor.Attributes) string {
+			_, _ = sk.Write(nil, nil, a)
+
+			return ""
+		}
+		f, err := packetdump.NewSenderInterceptor(packetdump.RTPWriter(&lineSink{}), packetdump.RTPFormatter(format))
+		if err != nil {
+			panic(err)
+		}
+		ic := must(f.NewInterceptor(""))
+		w, closer = ic.BindLocalStream(&interceptor.StreamInfo{SSRC: mediaSSRC}, &sink{}), ic.Close
+	default:
+		panic("runAttrWrite: " + c.Chain[0])
+	}
+	reused := interceptor.Attributes{}
+	for i := range c.Pkts {
+		m := reused
+		if !cl.reuse {
+			m = interceptor.Attributes{}
+		}
+		val := fmt.Sprintf("v%d/%d", c.Pkts[i].Seq, c.Pkts[i].PayLen)
+		m[attrKey{}] = val
+		h, p := newCaller(false).build(c.Pkts[i], false)
+		if len(p) > 1400 {
+			p = p[:1400]
+		}
+		out.ops = append(out.ops, cq.C("XCall", xnames(c.Chain), cq.L([]string{cq.T(cq.Z(locAttr), cq.Z(intern("A|"+val)), cq.Z(int64(len(m))))})))
+		for { // drain a stale token
+			select {
+			case <-sk.gate:
+				continue
+			default:
+			}
+
+			break
+		}
+		before := sk.n()
+		_, werr := w.Write(h, p, m)
+		if m[attrKey{}] != val {
+			cl.wrote = append(cl.wrote, int64(i))
+		}
+		if cl.reuse {
+			garbage := fmt.Sprintf("scribbled-%d", i)
+			m[attrKey{}] = garbage
+			out.ops = append(out.ops, cq.C("XScribble", cq.Z(locAttr), cq.Z(intern("A|"+garbage))))
+		}
+		select {
+		case sk.gate <- struct{}{}:
+		default:
+		}
+		if werr != nil || !waitFor(sk.n, before+1, 3*time.Second) {
+			*fails = append(*fails, cq.ImplFailure{Kind: "attr-not-delivered", Detail: fmt.Sprintf("%v: packet %d: err=%v", c.Chain, i, werr), Case: c})
+		}
+		sk.mu.Lock()
+		got := append([]int64{}, sk.got[before:]...)
+		sk.mu.Unlock()
+		out.outs = append(out.outs, got)
+		out.ops = append(out.ops, cq.C("XEmitAll", xname(c.Chain[0])), cq.C("XDrop", xname(c.Chain[0])))
+	}
+	_ = closer()
 	out.wrote = cl.wrote
 
 	return out
@@ -535,10 +723,17 @@ var xChains = map[string][][]string{
 		{"NackCopy", "DumpSender"}, {"DumpSender", "NackCopy"}, {"FlexFec", "DumpSender"}, {"DumpSender", "FlexFec"},
 		{"StatsOut", "DumpSender"}, {"Rtpfb", "DumpSender"}, {"DumpSender", "Rtpfb", "NackCopy"},
 	},
-	"rtcp-write": {{"DumpSenderRtcp"}},
+	"rtcp-write":       {{"DumpSenderRtcp"}},
+	"rtcp-write-stats": {{"StatsRtcpOut"}},
+	"attr-write":       {{"AttrLeakyBucket"}, {"AttrPacing"}, {"AttrDumpSender"}},
 }
 
-var xKinds = []string{"rtcp-read", "rtp-read", "rtp-write", "rtcp-write"}
+var xKinds = []string{"rtcp-read", "rtp-read", "rtp-write", "rtcp-write", "rtcp-write-stats", "attr-write"}
+
+// kinds replayed under the race detector (thorough tier): not rtcp-write, whose race between the
+// logger goroutine and the caller mutating its packet objects is the known finding, and not
+// attr-write (known finding; ungated concurrent map access is a fatal runtime error)
+var xRaceKinds = []string{"sized", "rtcp-read", "rtp-read", "rtp-write", "rtcp-write-stats"}
 
 var xSized = []string{"LeakyBucket", "NackCopy", "Pacing"}
 
